@@ -56,11 +56,15 @@ def points(tier):
     pts.append({"prim": "byte_array"})
     for longval in (0, 1):
         for w in range(0, 65 if longval else 33):
-            pts.append({"prim": "delta", "width": w, "longval": longval})
+            for count in (1, 2, 31, 32, 33, 34, 128, 129, 257):
+                pts.append({"prim": "delta", "width": w, "longval": longval, "count": count})
+    counts = [1, 2, 3, 31, 32, 33, 63, 64, 65, 127, 128, 129, 130, 255, 256, 257]
+    if tier == "thorough":
+        counts += [511, 512, 513, 1000, 4097]
     for longval in (0, 1):
         for series in ("const", "ramp", "down", "extremes", "table"):
-            pts.append({"prim": "delta_shapes", "longval": longval, "series": series,
-                        "big": tier == "thorough"})
+            for n in counts:
+                pts.append({"prim": "delta_shapes", "longval": longval, "series": series, "count": n})
     return pts
 
 
@@ -504,7 +508,7 @@ def _delta_call(c, np, ce, vals, longval, cap, what, block=128, mini=4, force=No
 
 def run_delta(c, p, np, ce):
     w, lv = p["width"], p["longval"]
-    for count in (1, 2, 31, 32, 33, 34, 128, 129, 257):
+    for count in (p["count"],):
         for shape in (0, 1):
             vals = _delta_values(w, count, lv, shape)
             for cap in sorted({count - 1, count, count + 1} - {0}):
@@ -524,9 +528,7 @@ def run_delta_shapes(c, p, np, ce):
         # 20-bit magnitudes: every miniblock needs < 29 bits
         "table": lambda n: [((TABLE[i] >> 5) & 0xFFFFF) - 0x80000 for i in range(n)],
     }
-    counts = [1, 2, 3, 31, 32, 33, 63, 64, 65, 127, 128, 129, 130, 255, 256, 257]
-    if p.get("big"):
-        counts += [511, 512, 513, 1000, 4097]
+    counts = [p["count"]]
     for name, f in series.items():
         if name != p["series"]:
             continue
